@@ -22,6 +22,7 @@ import (
 	"go/parser"
 	"go/token"
 	"os"
+	"os/exec"
 	"path"
 	"path/filepath"
 	"strconv"
@@ -132,4 +133,27 @@ func nativeHookRewrite(name string, src []byte, want map[string]bool, hookPkg st
 	}
 	s = s[:loc[1]] + "\n\nimport " + nativeHookIdent + " " + strconv.Quote(hookPkg) + "\n" + s[loc[1]:]
 	return []byte(s), true, nil
+}
+
+// nativeTestCmd builds the native replay binary of a harness directory and runs the tests of its
+// *_test.go files that match the regexp (differential sweeps of the models against the real calls).
+func nativeTestCmd(hdir, re string) int {
+	spec, err := loadSpec(hdir)
+	if err != nil {
+		fmt.Fprintln(os.Stderr, err)
+		return 2
+	}
+	bin, err := buildReplayBinary(spec)
+	if err != nil {
+		fmt.Fprintln(os.Stderr, err)
+		return 2
+	}
+	cmd := exec.Command(bin, "-test.v", "-test.run", re, "-test.timeout", "3600s")
+	cmd.Dir = filepath.Join(repoDir, spec.Dir)
+	cmd.Env = goEnv()
+	cmd.Stdout, cmd.Stderr = os.Stdout, os.Stderr
+	if err := cmd.Run(); err != nil {
+		return 1
+	}
+	return 0
 }
